@@ -1,12 +1,21 @@
 #!/usr/bin/env python3
-"""tools_mkmut.py <Cxx> <name> <repo-relative file> <old> <new>: write mutants/<Cxx>/<name>.diff replacing the (unique) text `old` by `new`"""
-import sys, difflib, os
+"""tools_mkmut.py <Cxx> <name> <repo-relative file> <old> <new>: write mutants/<Cxx>/<name>.diff replacing the (unique) text `old` by `new`
+(the diff is produced by git in a scratch worktree outside /repo and /verif, which is removed at once)"""
+import sys, os, subprocess, tempfile
 prop, name, rel, old, new = sys.argv[1:6]
-src = open(os.path.join("/repo", rel)).read()
 old, new = old.encode().decode("unicode_escape"), new.encode().decode("unicode_escape")
-assert src.count(old) == 1, f"old text occurs {src.count(old)} times"
-mut = src.replace(old, new)
-d = "".join(difflib.unified_diff(src.splitlines(True), mut.splitlines(True), "a/" + rel, "b/" + rel))
-os.makedirs(f"/verif/mutants/{prop}", exist_ok=True)
-open(f"/verif/mutants/{prop}/{name}.diff", "w").write(d)
-print("wrote", f"mutants/{prop}/{name}.diff")
+d = tempfile.mkdtemp(prefix="mkmut_", dir="/tmp"); os.rmdir(d)
+subprocess.run(["git", "-C", "/repo", "worktree", "add", "-q", "--detach", d, "HEAD"], check=True)
+try:
+    p = os.path.join(d, rel)
+    src = open(p, encoding="utf-8", newline="").read()
+    if "\r\n" in src:       # keep CRLF files CRLF
+        old, new = old.replace("\n", "\r\n"), new.replace("\n", "\r\n")
+    assert src.count(old) == 1, f"old text occurs {src.count(old)} times"
+    open(p, "w", encoding="utf-8", newline="").write(src.replace(old, new))
+    out = subprocess.run(["git", "-C", d, "diff"], capture_output=True, text=True, check=True).stdout
+    os.makedirs(f"/verif/mutants/{prop}", exist_ok=True)
+    open(f"/verif/mutants/{prop}/{name}.diff", "w").write(out)
+    print("wrote", f"mutants/{prop}/{name}.diff")
+finally:
+    subprocess.run(["git", "-C", "/repo", "worktree", "remove", "--force", d])
